@@ -108,7 +108,10 @@ def run_case(case: dict) -> dict:
                 log({"e": o, "id": op["id"]})
             elif o == "pdo_echo":
                 # a frame with the map's own COB-ID reaches the network (time stamps in half seconds)
-                skipped = pdo.cob_id in (0, None)
+                # (not on an id another service of the two nodes listens to: a two-byte frame there is that
+                #  service's business -- the EMCY consumer raises on it -- and never reaches the map)
+                skipped = pdo.cob_id in (0, None, 0x80 + nid + 1, 0x580 + nid + 1, 0x700 + nid + 1, 0x600 + nid,
+                                         0x700 + nid, 0x80, 0x7E4, 0x7E5)
                 if not skipped:
                     pdo.enabled = True
                     pdo.subscribe()
